@@ -5,7 +5,7 @@
    well-formed schemas: Proof/ConstrBase.v (Inv, wf_schema). *)
 From Coq Require Import ZArith List Bool.
 From TV Require Import Model.SqlSpec Model.CheckStr Model.ConstrSpec Model.ConstrImpl Model.ConstrClass
-                       Proof.CheckStrMain Proof.ConstrBase Proof.ConstrIns Proof.ConstrSel Proof.ConstrDel Corr.C09 Proof.ConstrMain Proof.ConstrRefute.
+                       Proof.CheckStrMain Proof.ConstrBase Proof.ConstrIns Proof.ConstrSel Proof.ConstrDel Proof.ConstrUpd Corr.C09 Proof.ConstrMain Proof.ConstrRefute.
 Import ListNotations.
 Open Scope Z_scope.
 
@@ -69,19 +69,49 @@ Theorem delete_exact :
                    exec_write sch (abs_db st) (SDel t w) = (ok, abs_db st') /\ Inv sch st'.
 Proof. exact delete_exact_l. Qed.
 
-(* HISTORIES: for every well-formed schema and every history of INSERT and DELETE statements on
-   both tables (deletes followed by re-inserts of the same keys, RESTRICT / CASCADE parent deletes,
-   multi-row inserts ...), starting from the empty database: if the history is in no recorded class
-   and the implementation model reproduces what was observed, then what was observed satisfies the
-   property -- every write accepted iff the resulting database satisfies every declared constraint,
-   tables equal to the reference's after every statement (Corr/C09.v known_class / model_agrees /
-   spec_ok are the functions the correspondence run evaluates on the real database's answers) *)
-Theorem constraints_exact_ins_del :
+(* UPDATE: for every well-formed schema, every state satisfying the invariant and every UPDATE
+   SET column = literal, ... [WHERE ...] outside the recorded classes (11 tombstone selected, 12 a
+   non-NULL value for a key column of two or more rows, 13 key column in a table without PRIMARY
+   KEY, 14 an index entry whose stored row key is not the owner's row id is met, 15 a FOREIGN KEY
+   would break): on the one-pass path and on the multi-pass path alike the implementation accepts
+   iff the updated database satisfies every declared constraint -- NOT NULL, CHECK, uniqueness of
+   updated key columns through the index probes --, leaves the reference's tables and keeps the
+   invariant (the index maintenance keeps the unique indexes exact) *)
+Theorem update_exact :
+  forall sch st t sets w,
+    wf_schema sch -> Inv sch st -> stmt_class sch st (SUpd t sets w) = 0 ->
+    sets_ok (length (cols_of sch t)) sets = true ->
+    exists ok st', impl_step sch st (SUpd t sets w) = (Some ok, st') /\
+                   exec_write sch (abs_db st) (SUpd t sets w) = (ok, abs_db st') /\ Inv sch st'.
+Proof. exact update_exact_l. Qed.
+
+(* HISTORIES: for every well-formed schema and EVERY history of INSERT, UPDATE and DELETE statements
+   on both tables (updates of key columns, deletes followed by re-inserts of the same keys,
+   RESTRICT / CASCADE parent deletes, multi-row statements ...), starting from the empty database:
+   if the history is in no recorded class and the implementation model reproduces what was
+   observed, then what was observed satisfies the property -- every write accepted iff the
+   resulting database satisfies every declared constraint, tables equal to the reference's after
+   every statement (Corr/C09.v known_class / model_agrees / spec_ok are the functions the
+   correspondence run evaluates on the real database's answers) *)
+Theorem constraints_exact :
   forall sch steps,
-    wf_schema sch -> no_update (map fst steps) = true ->
+    wf_schema sch ->
     known_class (Hist sch steps) = 0 -> model_agrees (Hist sch steps) = true ->
     spec_ok (Hist sch steps) = true.
-Proof. exact constraints_exact_ins_del_l. Qed.
+Proof. exact constraints_exact_l. Qed.
+
+(* the same on the model alone: outside the classes its trace is the reference's trace *)
+Theorem model_refines_spec :
+  forall sch h tr,
+    wf_schema sch -> hist_class sch h = 0 -> spec_run sch db_empty h = Some tr ->
+    impl_trace sch (d_empty sch) h = map (fun p => (Some (fst p), snd p)) tr.
+Proof. exact model_refines_spec_l. Qed.
+
+(* the CHECK classes 1-4 are the complement of the fragment: class 0 and at most 30 comparisons
+   put an expression inside it *)
+Theorem chk_class_zero_frag :
+  forall names ci e, chk_class names ci e = 0 -> (atoms e <= 30)%nat -> chk_frag ci e = true.
+Proof. exact chk_class_zero_frag_l. Qed.
 
 (* every recorded finding class is a genuine failure: a history as the real database answered it,
    reproduced by the implementation model, refused by the reference, in the stated class *)
@@ -108,7 +138,10 @@ Check check_eval_agrees : forall n ci e r, (ci < n)%nat -> (n <= 10)%nat -> chk_
 Check insert_exact : forall sch st t (rows : list row), wf_schema sch -> Inv sch st -> forallb (row_fits (length (cols_of sch t))) rows = true -> ins_partial sch t st rows = false -> exists ok st', impl_step sch st (SIns t rows) = (Some ok, st') /\ exec_write sch (abs_db st) (SIns t rows) = (ok, abs_db st') /\ Inv sch st'.
 Check selection_exact : forall ds ts next w, tinv ds ts next -> uniq_ok ds (visible ts) = true -> has_dead (select_rows ds ts w) = false -> select_rows ds ts w = live_sel ts w.
 Check delete_exact : forall sch st t w, wf_schema sch -> Inv sch st -> stmt_class sch st (SDel t w) = 0 -> exists ok st', impl_step sch st (SDel t w) = (Some ok, st') /\ exec_write sch (abs_db st) (SDel t w) = (ok, abs_db st') /\ Inv sch st'.
-Check constraints_exact_ins_del : forall sch steps, wf_schema sch -> no_update (map fst steps) = true -> known_class (Hist sch steps) = 0 -> model_agrees (Hist sch steps) = true -> spec_ok (Hist sch steps) = true.
+Check update_exact : forall sch st t sets w, wf_schema sch -> Inv sch st -> stmt_class sch st (SUpd t sets w) = 0 -> sets_ok (length (cols_of sch t)) sets = true -> exists ok st', impl_step sch st (SUpd t sets w) = (Some ok, st') /\ exec_write sch (abs_db st) (SUpd t sets w) = (ok, abs_db st') /\ Inv sch st'.
+Check constraints_exact : forall sch steps, wf_schema sch -> known_class (Hist sch steps) = 0 -> model_agrees (Hist sch steps) = true -> spec_ok (Hist sch steps) = true.
+Check model_refines_spec : forall sch h tr, wf_schema sch -> hist_class sch h = 0 -> spec_run sch db_empty h = Some tr -> impl_trace sch (d_empty sch) h = map (fun p => (Some (fst p), snd p)) tr.
+Check chk_class_zero_frag : forall names ci e, chk_class names ci e = 0 -> (atoms e <= 30)%nat -> chk_frag ci e = true.
 Check constraints_refuted : refutes 1 wit_1 /\ refutes 2 wit_2 /\ refutes 3 wit_3 /\ refutes 4 wit_4 /\ refutes 10 wit_10 /\ refutes 11 wit_11 /\ refutes 12 wit_12 /\ refutes 13 wit_13 /\ refutes 14 wit_14 /\ refutes 15 wit_15 /\ refutes 16 wit_16 /\ refutes 17 wit_17 /\ refutes 18 wit_18 /\ refutes 19 wit_19.
 Check inv_initial : forall sch, Inv sch (d_empty sch).
 Print Assumptions spec_accepts_iff_valid.
@@ -117,5 +150,8 @@ Print Assumptions check_eval_agrees.
 Print Assumptions insert_exact.
 Print Assumptions selection_exact.
 Print Assumptions delete_exact.
-Print Assumptions constraints_exact_ins_del.
+Print Assumptions update_exact.
+Print Assumptions constraints_exact.
+Print Assumptions model_refines_spec.
+Print Assumptions chk_class_zero_frag.
 Print Assumptions constraints_refuted.
